@@ -57,8 +57,49 @@ def _weaken_dict(o: HObj):
         o.exact = False
 
 
+def namedtuple_fields(fn: Term):
+    """field names if fn is the class made by collections.namedtuple(name, fields) with constant arguments"""
+    if not (fn.op == "call" and isinstance(fn.args[0], Term) and fn.args[0].op == "ext" and fn.args[0].args[0] in ("collections.namedtuple", "namedtuple") and len(fn.args[1]) >= 2):
+        return None
+    f = fn.args[1][1]
+    if not is_const(f):
+        return None
+    v = cval(f)
+    if isinstance(v, str):
+        v = v.replace(",", " ").split()
+    if isinstance(v, (list, tuple)) and all(isinstance(x, str) and x.isidentifier() for x in v):
+        return tuple(v)
+    return None
+
+
+def make_namedtuple(ex, fields, defaults: Dict[str, Term], args, kwargs, st, node, what: str) -> Term:
+    """a named tuple is the plain tuple of its fields; the field names are remembered per tuple term for attribute access"""
+    vals: Dict[str, Term] = {}
+    if len(args) > len(fields) or any(k not in fields for k in kwargs):
+        ex.emit("raise", node, st, exc="TypeError", exc_term=mk("builtin", "TypeError"), args=(), reraise=False, implicit=True, construct="%s(...)" % what)
+        raise PathDead()
+    for nm, v in zip(fields, args):
+        vals[nm] = v
+    for k, v in kwargs.items():
+        vals[k] = v
+    for nm in fields:
+        if nm not in vals:
+            if nm in defaults:
+                vals[nm] = defaults[nm]
+            else:
+                ex.emit("raise", node, st, exc="TypeError", exc_term=mk("builtin", "TypeError"), args=(), reraise=False, implicit=True, construct="%s(...): missing %s" % (what, nm))
+                raise PathDead()
+    t = mk("tuple", tuple(vals[nm] for nm in fields))
+    ex.nt_fields.setdefault(t.uid, set()).add(tuple(fields))
+    return t
+
+
 def call_model(ex, fn: Term, args: List[Term], kwargs: Dict[str, Term], st: State, node) -> Term:
     op = fn.op
+    if op == "call":
+        nf = namedtuple_fields(fn)
+        if nf is not None and "**" not in kwargs and not any(a.op == "star" for a in args):
+            return make_namedtuple(ex, nf, {}, args, kwargs, st, node, cval(fn.args[1][0]) if is_const(fn.args[1][0]) else "namedtuple")
     if op == "builtin":
         return call_builtin(ex, fn.args[0], args, kwargs, st, node)
     if op == "bmeth":
@@ -254,7 +295,34 @@ def struct_pack(ex, fmt, vals, st: State, node) -> Optional[Term]:
     return out
 
 
+def _match_pattern(m: Term):
+    """the constant pattern string if m is the result of re.match / fullmatch / search(PATTERN, ...) or of the same methods of re.compile(PATTERN)"""
+    m = unsnap_(m)
+    if m.op != "call" or not isinstance(m.args[0], Term):
+        return None
+    f = m.args[0]
+    if f.op == "ext" and f.args[0] in ("re.match", "re.fullmatch", "re.search") and m.args[1] and is_const(m.args[1][0]) and isinstance(cval(m.args[1][0]), str):
+        return cval(m.args[1][0])
+    if f.op == "meth" and f.args[1] in ("match", "fullmatch", "search"):
+        p_ = unsnap_(f.args[0])
+        if p_.op == "call" and isinstance(p_.args[0], Term) and p_.args[0].op == "ext" and p_.args[0].args[0] == "re.compile" and p_.args[1] and is_const(p_.args[1][0]) and isinstance(cval(p_.args[1][0]), str):
+            return cval(p_.args[1][0])
+    return None
+
+
 def method_on_symbolic(ex, recv: Term, name: str, args, kwargs, st: State, node, ext_base: Optional[str] = None) -> Term:
+    if name == "groups" and not args and not kwargs and ext_base is None:
+        # m.groups() of a match of a known pattern is (m.group(1), ..., m.group(n))
+        pat = _match_pattern(recv)
+        if pat is not None:
+            import re as _re
+
+            try:
+                ng = _re.compile(pat).groups
+            except _re.error:
+                ng = None
+            if ng is not None and ng <= 32:
+                return mk("tuple", tuple(method_on_symbolic(ex, recv, "group", [C(i)], {}, st, node) for i in range(1, ng + 1)))
     if recv.op == "structobj" and ext_base is None:
         fmt = recv.args[0]
         if name == "unpack" and len(args) == 1:
@@ -300,6 +368,18 @@ def call_builtin(ex, name: str, args, kwargs, st: State, node) -> Term:
     if name == "slice" and not kwargs and 1 <= n <= 3:
         # slice(stop) / slice(start, stop[, step]): the object x[a:b:c] builds implicitly
         return mk("sliceobj", *((NONE, A[0], NONE) if n == 1 else (A[0], A[1], A[2] if n == 3 else NONE)))
+    if name == "map" and n == 2 and not kwargs and A[0].op in ("func", "closure", "bound", "class", "builtin", "partial"):
+        # map(f, xs) over a sequence whose items are known one by one: the results, item by item (evaluated here; the consumer sees them in order)
+        its = ex.iter_items(A[1], st) if A[1].op in ("tuple", "sbytes", "ref") or is_const(A[1]) else None
+        if its is not None and len(its) <= 64:
+            return mk("tuple", tuple(ex.call(A[0], [x], {}, st, node) for x in its))
+    if name == "sum" and n in (1, 2) and not kwargs:
+        its = ex.iter_items(A[0], st) if A[0].op in ("tuple",) or (A[0].op == "ref" and ex.sym_bytes) else None
+        if its is not None and 1 <= len(its) <= 64 and not all(is_const(x) for x in its):
+            acc = A[1] if n == 2 else None
+            for x in its:
+                acc = x if acc is None else ex.binop("Add", acc, x, st, node)
+            return acc
     # ---- concrete folding for a whitelist of pure builtins
     if name in ("len", "int", "bytes", "tuple", "str", "bool", "min", "max", "abs", "sum", "ord", "chr", "hex", "divmod", "pow", "sorted", "float", "bin", "round", "repr", "any", "all") and not kwargs:
         try:
@@ -904,7 +984,7 @@ def _join(ex, sep: Term, it: Term, st: State, node) -> Term:
 PURE_EXT = {
     "hashlib.sha256", "hashlib.sha1", "hashlib.sha512", "hashlib.sha384", "hashlib.sha224", "hashlib.md5", "binascii.unhexlify", "binascii.hexlify", "binascii.a2b_hex", "binascii.b2a_hex",
     "re.sub", "re.match", "re.compile", "re.search", "re.fullmatch", "struct.unpack", "struct.pack", "copy.copy", "copy.deepcopy", "math.ceil",
-    "math.log", "math.floor", "math.sqrt", "base64.b64decode", "base64.b64encode", "collections.namedtuple", "functools.reduce", "itertools.chain",
+    "math.log", "math.floor", "math.sqrt", "base64.b64decode", "base64.b64encode", "collections.namedtuple", "functools.reduce", "functools.partial", "itertools.chain", "itertools.zip_longest",
     "hmac.new", "hmac.compare_digest", "math.gcd", "binascii.Error", "typing.cast",
 }
 
@@ -936,6 +1016,11 @@ def call_ext(ex, name: str, args, kwargs, st: State, node) -> Term:
         r_ = struct_pack(ex, cval(A[0]), list(A[1:]), st, node)
         if r_ is not None:
             return r_
+    if name in ("itertools.zip_longest", "zip_longest") and len(A) >= 1 and set(kwargs) <= {"fillvalue"}:
+        return mk("iterview", "zip_longest", mk("tuple", tuple(A)), kwargs.get("fillvalue", NONE))
+    if name in ("functools.partial", "partial") and A and A[0].op in ("closure", "func", "bound", "class", "partial", "ext", "builtin"):
+        # partial(f, *a, **k) only stores its arguments; calling it is f(*a, *args, **{**k, **kwargs})
+        return mk("partial", A[0], tuple(A[1:]), tuple(sorted(kwargs.items())))
     if name in ("functools.reduce", "reduce") and len(A) == 3 and not kwargs and A[0].op in ("closure", "func", "bound", "builtin"):
         # reduce(f, xs, init) is `acc = init; for x in xs: acc = f(acc, x)`: interpreted as exactly that loop
         import ast as _ast
@@ -1018,5 +1103,19 @@ def instantiate_model(ex, c: ClassInfo, args, kwargs, st: State, node) -> Option
     hook = getattr(ex, "instantiate_hook", None)
     if hook is not None:
         return hook(ex, c, args, kwargs, st, node)
-    # namedtuple classes: `X = namedtuple("X", "a, b")` are module-level exprs, not ClassInfo -> not here
+    # class X(typing.NamedTuple): annotated names of the class body are the fields, in order; values are defaults
+    if any(b in ("typing.NamedTuple", "NamedTuple") for b in c.external_bases()) and c.lookup("__new__") is None and "**" not in kwargs and not any(a.op == "star" for a in args):
+        import ast as _ast
+
+        fields, defaults = [], {}
+        for b_ in c.node.body:
+            if isinstance(b_, _ast.AnnAssign) and isinstance(b_.target, _ast.Name):
+                fields.append(b_.target.id)
+                if b_.value is not None:
+                    try:
+                        defaults[b_.target.id] = ex.lift(ex.prog.fold(c.module, b_.value, cls=c))
+                    except Exception:
+                        return None
+        if fields:
+            return make_namedtuple(ex, tuple(fields), defaults, args, kwargs, st, node, c.name)
     return None
